@@ -31,7 +31,7 @@ ASSUMPTIONS = [
     "fake job processes (engine) create the job directories the way the task runner would (markers only)",
     "a second process that blocks or raises when entering a held experiment is accepted either way",
 ]
-MIN_CLASSES = {"quick": {"end:normal": 300, "end:exception": 200, "aborted-then-run": 150, "end:kill": 8, "second-process": 10}, "thorough": {"end:kill": 300}}
+MIN_CLASSES = {"quick": {"end:normal": 300, "end:exception": 200, "aborted-then-run": 150, "end:kill": 8, "second-process": 8}, "thorough": {"end:kill": 300}}
 NJOBS = 6
 
 
@@ -49,7 +49,7 @@ def cases(ctx):
                 run["kill_at"] = draw(st.sampled_from(["enter-move", "after-submits", "before-exit"]))
                 run["kill_k"] = draw(st.integers(0, 4))
             runs.append(run)
-        return {"fail": fail, "runs": runs, "second_process": chance(draw, 4)}
+        return {"fail": fail, "runs": runs, "second_process": chance(draw, 10)}
 
     return _cases()
 
